@@ -427,13 +427,15 @@ class SimSolver:
             real.set("timeout", REAL_TIMEOUT_GUARD_MS)
         except _z3.Z3Exception:  # pragma: no cover
             pass
+        t_real = _real_time.monotonic()
         r = real.check(*assumptions)
+        t_real = _real_time.monotonic() - t_real   # only used to flag the run, never to decide anything
         if r == _z3.unknown:
             try:
                 why = str(real.reason_unknown())
             except _z3.Z3Exception:  # pragma: no cover
                 why = ""
-            if "timeout" in why:
+            if "timeout" in why or t_real > 0.8 * REAL_TIMEOUT_GUARD_MS / 1000.0:
                 env.real_timeout_guard += 1
                 env.rl_used = env.rl_budget  # give the run up: every later check answers unknown
         try:
